@@ -577,6 +577,21 @@ pub fn execute(project: &ProjectRef, plan: &Plan, counters: &mut Counters) -> Ru
         }
     };
     let out = std::process::Output { status, stdout: out_reader.join().unwrap_or_default(), stderr: err_reader.join().unwrap_or_default() };
+    // A child killed from outside (SIGKILL that is not our own watchdog: the kernel's OOM killer on
+    // a loaded machine) says nothing about the compiler. Retry; if it keeps happening the harness
+    // cannot decide anything and says so (exit 2) instead of reporting a "no output" observable.
+    {
+        use std::os::unix::process::ExitStatusExt;
+        if !timed_out && out.status.signal() == Some(9) {
+            counters.inc("child_killed_externally_retried");
+            static KILLS: std::sync::atomic::AtomicUsize = std::sync::atomic::AtomicUsize::new(0);
+            if KILLS.fetch_add(1, std::sync::atomic::Ordering::SeqCst) >= 8 {
+                harness_error("c12-exec children keep being killed by SIGKILL (out of memory?)");
+            }
+            std::thread::sleep(std::time::Duration::from_secs(2));
+            return execute(project, plan, counters);
+        }
+    }
     if out.status.code() == Some(86) {
         // The injected preemption hit a task that held a blocking lock shuttle does not control:
         // inconclusive, not an observation about the compiler. Re-run the plan without the seam.
